@@ -320,3 +320,41 @@ func vpC13_O4() {
 		vpAssert("each statement is reported as proven at its attribute", len(proof.RangeProofs[a]) == 1 && proof.RangeProofs[a][0].Proves(st[0]))
 	}
 }
+
+func init() {
+	vpHarnesses["vpC12_O6"] = vpC12_O6
+}
+
+// C12-O6: a range proof is about the signed attribute because it shares the attribute's
+// response. A holder whose attribute does not satisfy the statement computes the range
+// part over another value that does (same randomiser as the attribute, so that the
+// challenge covers it) while the signature part is about the signed value; the range
+// proof object carries the response over the other value (in memory the field is
+// set by the prover). The verifier has to use the attribute's own response: rejected.
+func vpC12_O6() {
+	pk, sk := vpKeys(0, 4, 1024, false)
+	cred := vpCredential(pk, sk, "a", 2, 256)
+	bound := vpBig("bound")
+	other := vpBigBits("other", 256)
+	vpAssume(other.Cmp(bound) >= 0 && vpDifference(1, 1, bound, other).BitLen() <= 255)
+	vpAssume(cred.Attributes[1].Cmp(bound) < 0) // the statement is false of the signed value
+	stmt := &rangeproof.Statement{Sign: 1, Factor: 1, Bound: bound}
+	b, err := cred.CreateDisclosureProofBuilder(nil, map[int][]*rangeproof.Statement{1: {stmt}}, false)
+	vpAssume(err == nil)
+	forged := append([]*big.Int{}, cred.Attributes...)
+	forged[1] = other
+	b.attributes = forged // the commitments of the range part are made over the other value ...
+	ctx, nonce := vpBigBits("ctx", 256), vpBigBits("nonce", 80)
+	bl := ProofBuilderList{b}
+	rs, err := NewProofRandomizers()
+	vpAssume(err == nil)
+	c, err := bl.ChallengeWithRandomizers(ctx, nonce, rs, false)
+	vpAssume(err == nil && c.Sign() != 0)
+	b.attributes = cred.Attributes // ... the responses of the signature part over the signed one
+	pl, err := bl.BuildDistributedProofList(c, nil)
+	vpAssume(err == nil)
+	proof := pl[0].(*ProofD)
+	vpAssume(len(proof.RangeProofs[1]) == 1)
+	accepted := proof.Verify(pk, ctx, nonce, false)
+	vpAssert("a range proof computed over another value than the signed attribute is rejected", !accepted)
+}
